@@ -430,7 +430,9 @@ class PDFContentParser(PSStackParser[Union[PSKeyword, PDFStream]]):
                     raise PSTypeError(error_msg)
                 d = {literal_name(k): resolve1(v) for (k, v) in choplist(2, objs)}
                 eos = b"EI"
-                filter = d.get("F", None)
+                # the key may be abbreviated or spelled out (ISO 32000-1 table 93),
+                # looked up in the order of PDFStream.get_filters
+                filter = d["F"] if "F" in d else d.get("Filter")
                 if isinstance(filter, PSLiteral):
                     filter = [filter]
                 # anything but a name or a non-empty array names no filter
